@@ -55,9 +55,116 @@ def setup_impl_env():
     atexit.register(lambda: shutil.rmtree(cache, ignore_errors=True))
     if REPO not in sys.path[:1]:
         sys.path.insert(0, REPO)
+    if os.environ.get("VERIF_NO_LINE_RECORDING") != "1":
+        start_line_recording()
     import dataiter
     assert os.path.realpath(dataiter.__file__).startswith(os.path.realpath(REPO)), dataiter.__file__
     return dataiter
+
+
+# ----------------------------------------------------------------------------------------------
+# which lines of the anchored code did the generated cases execute? (sys.monitoring, each line fires once)
+
+_EXECUTED = set()
+
+
+def start_line_recording():
+    """Record every (file, line) of REPO/dataiter that runs in this process.  The callback disables itself per
+    location after the first hit, so the overhead is one call per distinct line."""
+    mon = getattr(sys, "monitoring", None)
+    if mon is None:
+        return
+    root = os.path.join(os.path.realpath(REPO), "dataiter") + os.sep
+    tool = mon.COVERAGE_ID
+    try:
+        mon.use_tool_id(tool, "verif-anchor-lines")
+    except ValueError:
+        return
+
+    def on_line(code, line):
+        fn = code.co_filename
+        if fn.startswith(root) or os.path.realpath(fn).startswith(root):
+            _EXECUTED.add((os.path.relpath(os.path.realpath(fn), os.path.realpath(REPO)), line))
+        return mon.DISABLE
+    mon.register_callback(tool, mon.events.LINE, on_line)
+    mon.set_events(tool, mon.events.LINE)
+
+
+def anchor_line_report(prop):
+    """Executable lines inside the property's anchor ranges (properties.jsonl `where` fields) vs lines executed."""
+    spec = None
+    for l in open(os.path.join(VERIF, "properties.jsonl")):
+        j = json.loads(l)
+        if j["id"] == prop:
+            spec = j
+    if spec is None:
+        return {}
+    text = json.dumps(spec.get("anchors", {}))
+    base_ranges = {}
+    for m in re.finditer(r"(dataiter/\w+\.py):([0-9,\-]+)", text):
+        for part in m.group(2).split(","):
+            if not part:
+                continue
+            a, _, b = part.partition("-")
+            base_ranges.setdefault(m.group(1), []).append((int(a), int(b or a)))
+    # the anchors give line numbers of the pinned source; fix: commits have moved lines since.  Map every range
+    # to the functions it touches in the pinned file (root commit of /repo) and take those functions' current extent.
+    import ast as _ast
+
+    def functions(src):
+        out = []
+
+        def visit(node, prefix):
+            for n in getattr(node, "body", []):
+                if isinstance(n, (_ast.FunctionDef, _ast.ClassDef)):
+                    q = prefix + n.name
+                    if isinstance(n, _ast.FunctionDef):
+                        out.append((q, n.lineno, n.end_lineno))
+                    visit(n, q + ".")
+        visit(_ast.parse(src), "")
+        return out
+    ranges = {}
+    for fn, rs in base_ranges.items():
+        try:
+            rc, root = sh(["git", "-C", REPO, "rev-list", "--max-parents=0", "HEAD"])
+            rc2, base_src = sh(["git", "-C", REPO, "show", f"{root.strip().splitlines()[-1]}:{fn}"])
+            cur_src = open(os.path.join(REPO, fn), encoding="utf-8").read()
+            if rc != 0 or rc2 != 0:
+                raise RuntimeError("no base")
+            touched = {q for q, a, b in functions(base_src) if any(a <= y and x <= b for x, y in rs)}
+            ranges[fn] = [(a, b) for q, a, b in functions(cur_src) if q in touched]
+        except Exception:
+            ranges[fn] = rs
+    out = {"executable": 0, "executed": 0, "not_executed": []}
+    for fn, rs in sorted(ranges.items()):
+        path = os.path.join(REPO, fn)
+        try:
+            src = open(path, encoding="utf-8").read()
+            code = compile(src, path, "exec")
+        except Exception:
+            continue
+        lines = set()
+        stack = [code]
+        while stack:
+            c = stack.pop()
+            for _, _, ln in c.co_lines():
+                if ln is not None and ln != c.co_firstlineno:
+                    lines.add(ln)
+            stack.extend(k for k in c.co_consts if hasattr(k, "co_lines"))
+        src_lines = src.split("\n")
+        for ln in sorted(lines):
+            if not any(a <= ln <= b for a, b in rs):
+                continue
+            t = src_lines[ln - 1].strip() if ln - 1 < len(src_lines) else ""
+            if not t or t.startswith(("def ", "class ", "@", "#")) or t[0] in "\"'":
+                continue
+            out["executable"] += 1
+            if (fn, ln) in _EXECUTED:
+                out["executed"] += 1
+            else:
+                out["not_executed"].append(f"{fn}:{ln}")
+    out["not_executed"] = out["not_executed"][:60]
+    return out
 
 
 # ----------------------------------------------------------------------------------------------
@@ -325,6 +432,7 @@ def finish(ctx, level_info, build_ok, build_log, audit_res, extra_cov=None, assu
         "forbidden_token_hits": list(forbidden_hits),
         "known_findings_seen": sorted(known_hit),
         "partial": level_info.get("partial", []),
+        "anchor_lines": anchor_line_report(ctx.prop),
     }
     if extra_cov:
         cov.update(extra_cov)
@@ -443,8 +551,12 @@ def run_cases(ctx, driver, mod, cases):
             # "with a history": see harness/warm.py
             warm.ENABLED = (zlib.crc32(json.dumps(c, sort_keys=True, default=repr).encode()) % 3 == 0) \
                 and os.environ.get("VERIF_NO_WARM") != "1"
+            warm.GROUPED = warm.ENABLED and bool(getattr(mod, "WARM_GROUPED", False)) and \
+                (not hasattr(mod, "warm_grouped") or bool(mod.warm_grouped(c)))
             if warm.ENABLED:
                 ctx.count("warmed-cases")
+            if warm.GROUPED:
+                ctx.count("warmed-cases-grouped-receiver")
             o = mod.impl(c)
         except Exception as e:  # the observation itself blew up on the real code: a concrete failing input
             import traceback
@@ -454,6 +566,7 @@ def run_cases(ctx, driver, mod, cases):
             continue
         finally:
             warm.ENABLED = False
+            warm.GROUPED = False
         kept.append(c)
         r = mod.model_requests(c, o) if driver is not None else []
         spans.append((len(reqs), len(r)))
